@@ -296,6 +296,9 @@ def run_loop(eng, s, fr, anchor, spec, idxname, body_guard, bind, n, after_exit)
             c = eng.truth(eng.eval(s.test, fr))
             enter = eng.branch(c)
         if enter:
+            # ghost names of the iteration: expressions evaluated as the iteration starts (e.g. where a cursor stood)
+            for g_, e_ in (spec.extra.get('ghosts') or {}).items():
+                fr.ghost[g_] = eng.pure_expr(e_, fr)
             if is_for:
                 bind(idx.t)
                 if spec.extra.get('snapshot_present'):
